@@ -61,7 +61,7 @@ func randPayload(r *Rng, o genOpts) string {
 }
 
 var intValues = []int64{0, 1, -1, 7, 10, 42, 48879, -48879, 127, 128, 255, 256, 65535, 1 << 31, -(1 << 31), 1<<62 + 48879, -(1 << 63), 0x2039, 0x203a, 0xd800, 0x10ffff, 0x110000}
-var floatValues = []float64{0, 1, -1.5, 3.14159, 1e100, 1e-7, 123456789.125, -0.0000001}
+var floatValues = []float64{0, 1, -1.5, 3.14159, 1e100, 1e-7, 123456789.125, -0.0000001, 1073741824, float64(float32(0.1)), 16777217, 5e-324, 1.7976931348623157e308}
 
 func randInt(r *Rng) int64 { return intValues[r.Intn(len(intValues))] }
 
